@@ -5,6 +5,7 @@ package main
 import (
 	"fmt"
 	"go/types"
+	"math/big"
 	"sort"
 	"strings"
 
@@ -45,6 +46,7 @@ type LValue struct {
 	Path   string     // leaf path prefix inside Root
 	T      types.Type // type of the pointee
 	ArrIdx string     // non-empty: element ArrIdx of the array-sorted leaf at Path
+	Ptr    string     // non-empty: the pointer term this address was recovered from (may be nil: the nil check is on it)
 }
 
 type FuncVal struct {
@@ -60,6 +62,8 @@ type Value struct {
 	Tup []*Value // tuples
 	Fn  *FuncVal // statically known function value
 	Dyn types.Type // interface values built by MakeInterface: the statically known dynamic type
+	// unsigned integers assembled from bytes: only the low Bits bits can be set (0 = unknown), the low LowZ bits are zero
+	Bits, LowZ int
 	// spec-only kinds
 	SetElem string // non-empty: this is a set value; L[0] is (Array <SetElem> Bool)
 	MapVal  string // non-empty: this is a ghost map value; L[0] is (Array K <MapVal>)
@@ -512,4 +516,46 @@ func sortedKeys[V any](m map[string]V) []string {
 func isByteType(t types.Type) bool {
 	b, ok := types.Unalias(t).Underlying().(*types.Basic)
 	return ok && (b.Kind() == types.Uint8)
+}
+
+// intBits: width of an integer type in bits (0 if not an integer type).
+func intBits(t types.Type) int {
+	b, isb := types.Unalias(t).Underlying().(*types.Basic)
+	if !isb {
+		return 0
+	}
+	switch b.Kind() {
+	case types.Int, types.Int64, types.Uint, types.Uint64, types.Uintptr:
+		return 64
+	case types.Int32, types.Uint32, types.UntypedRune:
+		return 32
+	case types.Int16, types.Uint16:
+		return 16
+	case types.Int8, types.Uint8:
+		return 8
+	}
+	return 0
+}
+
+// bigLE compares two decimal SMT integer literals ("(- n)" for negatives).
+func bigLE(a, b string) bool {
+	pa, pb := new(big.Int), new(big.Int)
+	parse := func(s string, z *big.Int) bool {
+		neg := false
+		if strings.HasPrefix(s, "(- ") {
+			neg = true
+			s = strings.TrimSuffix(strings.TrimPrefix(s, "(- "), ")")
+		}
+		if _, ok := z.SetString(s, 10); !ok {
+			return false
+		}
+		if neg {
+			z.Neg(z)
+		}
+		return true
+	}
+	if !parse(a, pa) || !parse(b, pb) {
+		return false
+	}
+	return pa.Cmp(pb) <= 0
 }
